@@ -71,6 +71,19 @@ def r1_segment_aligned(ctx):
                 tested_true = outs.get(d.b) is True
                 if r == ('int', 0):
                     continue
+                # an Option-valued verdict (filter_map): None, `?` on a failed strip_prefix, or `cond.then(..)` with cond false on this
+                # very path reject the key
+                rp = peel(r) if r is not None else None
+                if rp is not None and ((rp[0] == 'agg' and str(rp[1]).endswith('Option::None')) or (rp[0] == 'call' and rp[1].endswith('FromResidual>::from_residual'))):
+                    continue
+                if rp is not None and rp[0] == 'call' and rp[1].endswith(('bool::then', 'bool::then_some')) and rp[2]:
+                    ts = [c for c in h.calls() if c.name == rp[1] and c.b in path]
+                    cv = rp[2][0]
+                    if ts:
+                        pidx = max(k_ for k_, bb in enumerate(path) if bb == ts[-1].b)
+                        cv = h.expr_operand_on_path(ts[-1].args[0], path, pidx, 'T')
+                    if path_truth(h, path, decs, cv) is False:
+                        continue
                 if r == ('int', 1) or r is None or r[0] != 'int':
                     n_true += 1
                     # a non-constant return after the test (e.g. `&& rem.len() > 1`) is fine as long as the test was true on the way
@@ -209,9 +222,22 @@ def r3_typed_access(ctx):
     if f:
         is_calls = [s for s in f.calls() if s.name == PR + 'RawProp::is']
         conv = [s for s in f.calls() if s.callee and s.callee.endswith('PropType::from_value')]
+        hand_over = None
+        if not conv:
+            # the conversion sits in a callback (closure or function item) that typed() hands to an accessor of the slot: the test must
+            # then dominate the hand-over, and the callback must be instantiated at typed()'s own T
+            for g in P.closures_of(f):
+                cs = [s for s in g.calls() if s.callee and s.callee.endswith('PropType::from_value')]
+                if not cs:
+                    continue
+                for s in f.calls():
+                    ts = [peel(f.expr_operand(a, s.b, 'T')) for a in s.args]
+                    for t in ts:
+                        if (t[0] == 'fnitem' and t[1] == g.key and list(t[2]) == ['T']) or (t[0] == 'agg' and t[1] == 'closure:' + g.key):
+                            conv, hand_over = cs, s
         if ctx.floor('type test in typed()', len(is_calls), 1) and ctx.floor('conversion in typed()', len(conv), 1):
             ctx.check(is_calls[0].targs == ['T'] and conv[0].targs[:1] == ['T'], 'typed-same-T', 'typed::<T>() tests and converts with the same T', f.where())
-            atoms = [a for _, a in f.guard_atoms(conv[0].b)]
+            atoms = [a for _, a in f.guard_atoms((hand_over or conv[0]).b)]
             ctx.check(any(a[0] == 'bool' and a[1][0] == 'call' and a[1][1] == PR + 'RawProp::is' and a[2] is True for a in atoms), 'test-before-convert',
                       'the YAML value is only converted after the type test passed', conv[0].where())
         for path, outcome, decs in fn_paths(ctx, f):
@@ -278,6 +304,10 @@ def r4_wildcard(ctx):
             pt = peel(path)
             sf = [x for x in walk(pt) if x[0] == 'call' and x[1].endswith('::split_first')]
             is_tail = pt[0] == 'field' and pt[2] == '1' and bool(sf)
+            if via_any and is_tail and sf and sf[0][2] and peel(sf[0][2][0])[0] == 'arg' and not f.loops_containing(s.b):
+                # `let Some((_, tail)) = path.split_first()` .. update_from(wildcard, tail): the tail of the *whole* path = one segment less
+                ctx.ok("the '<any>' branch consumes exactly one path segment (recursion with the tail of split_first)", s.where())
+                continue
             pushes = [c for c in f.calls() if c.name.endswith('String::push_str') and f.dominates(c.b, s.b) and set(f.loops_containing(c.b)) == set(f.loops_containing(s.b)) and f.loops_containing(s.b)]
             seg_ok = False
             for c in pushes:
@@ -328,14 +358,24 @@ def r4_wildcard(ctx):
         ctx.check(not extra, 'wildcard-unconditional', "the '<any>' compartment applies to every module, whether or not a more specific key exists at the same level", s.where(), [show_atom(a) for a in extra])
     # leaf: with an empty remaining path every non-wildcard entry becomes a property
     sets = f.calls_to(PR + 'store::Props::set')
-    leaf = [s for s in sets if any(a[0] == 'bool' and a[1][0] == 'call' and a[1][1].endswith('::is_empty') and a[2] is True for _, a in f.guard_atoms(s.b))]
+
+    def path_exhausted(a):
+        # `path.is_empty()`, or `path.split_first()` / `path.first()` yielding None
+        if a[0] == 'bool' and a[1][0] == 'call' and a[1][1].endswith('::is_empty') and a[2] is True:
+            return True
+        st_ = option_state(a)
+        if st_ and st_[0] == 'none':
+            c = peel_c(st_[1])
+            return c[0] == 'call' and c[1].endswith(('::split_first', '::first')) and bool(c[2]) and peel_c(c[2][0])[0] == 'arg'
+        return False
+    leaf = [s for s in sets if any(path_exhausted(a) for _, a in f.guard_atoms(s.b))]
     if not leaf:
         P = ctx.P
         for w in per_item_calls(P, f, PR + 'store::Props::set'):
             if w.form != 'consumer':
                 continue
             ga = [a for _, a in f.guard_atoms(w.anchor)]
-            if not any(a[0] == 'bool' and a[1][0] == 'call' and a[1][1].endswith('::is_empty') and a[2] is True for a in ga):
+            if not any(path_exhausted(a) for a in ga):
                 continue
             # the chain filters out keys that still contain the wildcard
             filt = False
